@@ -4,6 +4,7 @@ import Enc.Lemmas.ProtoDepthSkip
 import Enc.Lemmas.ProtoDeepChain
 import Enc.Lemmas.ProtoScanUnmarshal
 import Enc.Lemmas.ProtoScanTrunc
+import Enc.Lemmas.ProtoAllocZero
 /-!
 # C07 — proto decoding is total and ignores unknown fields
 Property theorems only (proofs in Enc/Lemmas/ProtoDecode.lean).
@@ -139,6 +140,56 @@ example (inner : Bytes) (h : inner.length < 2 ^ 63) : (nest Gen.c_proto_maxDepth
   simp only [Gen.c_proto_maxDepth] at this ⊢
   omega
 
+
+/-! ## allocation: "memory allocated stays within a constant factor of the input length"
+
+`decodeA` / `unmarshalA` (Enc/Model/ProtoAlloc.lean) are the decoders above with one more result: the bytes requested at
+the allocation sites of the package on that path (`reflect.New` behind a nil pointer, `growSlice`: capacity 0 → 10 → 20 →
+40 …, `MakeMap(…, 10)` before the entry is read, the scratch entry struct, `string(v)`, `make`/`append` of `[]byte`,
+`RawMessage`, `fieldError` on every error return) — counted on the error paths too. -/
+section Alloc
+open Lemmas.ProtoAlloc
+
+/-- the accounting decoder IS the decoder: its first component is `decode` (so every theorem above transfers) -/
+theorem decodeA_proj (fuel d : Nat) (c : Codec) (b : Bytes) (cur : Val) (fl : Flags) :
+    (decodeA fuel d c b cur fl).1 = decode fuel d c b cur fl :=
+  Lemmas.ProtoAlloc.decodeA_proj fuel d c b cur fl
+
+theorem unmarshalA_proj (t : Ty) (b : Bytes) : (unmarshalA t b).1 = unmarshal t b :=
+  Lemmas.ProtoAlloc.unmarshalA_proj t b
+
+/-- **MAIN (alloc_bound).** For EVERY target type `t` there are constants `K`, `K0` — defined by recursion on the codec tree
+of `t` (`Codec.K`: 1 per copied string / RawMessage byte, 2 per `[]byte` byte, and for a message the largest per-call
+constant `K1` of a field decoder, paid by the field's tag byte; `Codec.K1`: pointee size behind a pointer, 14 element sizes
+for an append — growth by doubling, amortised — the map header, one bucket and the scratch entry for a map entry, one
+`UnmarshalFieldError` and one `fmt.Errorf` for a message) — such that for EVERY byte string `b`, `Unmarshal` into a zero
+`t` allocates at most `K·len(b) + K0` bytes: on success, on every error path, truncated or hostile input alike. There is no
+hypothesis on `t`: declared lengths are checked against the bytes available BEFORE anything is allocated from them. -/
+theorem alloc_bound (t : Ty) (b : Bytes) :
+    (unmarshalA t b).2 ≤ Codec.K (codecOf t) * b.length + Codec.K0 (codecOf t) :=
+  Lemmas.ProtoAlloc.unmarshalA_bound t b
+
+/-- the same for one decoder call into ANY target `cur` (a recycled one included): the credit `Phi c cur` is what the
+slices already in the target may cost when they next grow (at most `4·len + 20` element sizes each) -/
+theorem decodeA_alloc_bound (fuel d : Nat) (c : Codec) (b : Bytes) (cur : Val) (fl : Flags) :
+    (decodeA fuel d c b cur fl).2 ≤ Phi c cur + Codec.K c * b.length + Codec.K1 c :=
+  Lemmas.ProtoAlloc.decodeA_bound fuel d c b cur fl
+
+/-- the amortisation behind it, as coded in `sliceDecodeFuncOf` / `growSlice`: an append into a slice of `n` elements
+allocates `growAlloc n` elements (10 when empty, `2n` when `len == cap`, else nothing); the credit `pot` absorbs it at 14
+elements per append -/
+theorem growSlice_amortised (n : Nat) : growAlloc n + pot (n + 1) ≤ pot n + 14 := Lemmas.ProtoAlloc.grow_pot n
+
+/-- non-vacuity / sharpness on `struct { A []struct{X int64}; M map[string]*int32 }` (`exAllocC`, element size 8, entry
+size 24): 10 empty elements (20 bytes) cost one array of 10, the 11th doubles it (80 + 160); a map field of 4 bytes
+whose entry is truncated has already cost the map header with 2 buckets (464), the scratch entry (24), the string (0)
+and two `fieldError`s (64) when the error is found: the bound (K = 792) holds with room, and `K0 > 0` is needed. -/
+example : (decodeA 100 0 exAllocC ((List.replicate 10 [0x0a, 0x00]).flatten) (zeroOfCodec exAllocC) { toplevel := true }).2 = 80
+    ∧ (decodeA 100 0 exAllocC ((List.replicate 11 [0x0a, 0x00]).flatten) (zeroOfCodec exAllocC) { toplevel := true }).2 = 240
+    ∧ (decodeA 100 0 exAllocC [0x12, 0x02, 0x0a, 0x05] (zeroOfCodec exAllocC) { toplevel := true }).2 = 552
+    ∧ Codec.K exAllocC = 792 ∧ Codec.K1 exAllocC = 96 := by decide +kernel
+
+end Alloc
 
 /-! ## the wire-level API: `Parse` and `Scan` (model `Enc/Model/ProtoScan.lean`, reference `Spec.Protobuf.records`)
 
